@@ -64,6 +64,8 @@ fn main() {
         std::thread::spawn(move || {
             std::thread::sleep(std::time::Duration::from_secs(limit));
             println!("INCONCLUSIVE property={} watchdog after {} s", id, limit);
+            // external solvers, command-line runs and fuzz processes must not outlive the check
+            vharness::util::kill_descendants();
             std::process::exit(2);
         });
     }
